@@ -549,6 +549,10 @@ class Engine:
                 p = b[1]; return ('I', ('P', p[1], p[2] + sgn(a, bits)))
             if ta is tuple and a[0] == 'I' and tb is int and op == 'sub' and False: pass
             if op == 'sub' and ta is tuple and a[0] == 'I' and tb is int: pass
+            if (ta is int or (ta is tuple and a[0] == 'I')) and (tb is int or (tb is tuple and b[0] == 'I')):
+                # e.g. (NULL-based pointer difference) / sizeof: evaluated on deterministic fake addresses, noted
+                E.ub_notes['arithmetic %s on an integer derived from a pointer in %s' % (op, st.frames[-1].fn.name)] = 1
+                return E.binop(st, op, bits, a if ta is int else E.addr(a[1]) & m, b if tb is int else E.addr(b[1]) & m, False)
             raise Unsupported('arithmetic %s on pointer-derived integer in %s' % (op, st.frames[-1].fn.name))
         if bits == 1:
             x = E.tobool(a); y = E.tobool(b)
